@@ -70,7 +70,7 @@ partial def parse : List String → Option (Expr × Option CExpr × List String)
       pure (.bin op l r, (do let a ← cl; let b ← cr; pure (.bin op a b)), rest)
 
 def errName : Err → String
-  | .cdef => "cdef" | .ffi => "ffi" | .value => "value" | .index => "index"
+  | .cdef => "cdef" | .ffi => "ffi" | .value => "value" | .index => "index" | .overflow => "overflow"
 
 def showModel : Except Err Int → String
   | .ok v => s!"{v}"
